@@ -96,6 +96,19 @@ CLAIMED["C15"] = (
     "DESIGN.md 3/C15",
 )
 
+CLAIMED["C07"] = (
+    "differential runtime monitor: random CSG scenes (incl. big solids and thin parts) x voxel grids (w,h,d unequal, not tile multiples) x tile-size lists x affine 4x4 views x backend x thread pools; every column compared with the brute-force heightmap computed by the interpreter on the unsimplified shape (cross-checked against Context::eval), normals against an f64 dual-number gradient; VoxelTileDecision hook counts occluded/full/empty/recurse/pixel tiles; witness shrinking",
+    "Held on every render/column observed (about a million columns per quick run). Exploration.",
+    "Columns with a negative voxel between the grid top and one largest tile beyond it are outside the claim (stated); zero-band/NaN columns skipped; normals not judged at non-differentiable loci.",
+    "DESIGN.md 3/C07",
+)
+CLAIMED["C19"] = (
+    "runtime monitor: planted consistent linear systems (1..40 unknowns, stratified fixed/free layouts incl. none and all fixed, overdetermined, condition number <= 100 checked by SVD in f64), solved with the VM and JIT backends and a re-hashed parameter map; key set == free set, residual, backend agreement, bit-exact return of exact starting points, no panic/hang (child processes with a watchdog)",
+    "Held on every system observed (all 40 sizes, all free counts mod 3). Exploration.",
+    "Accuracy is judged only for consistent systems with condition number <= 100 (stated); a solve exceeding the 90 s watchdog is inconclusive-by-crash-monitor.",
+    "DESIGN.md 3/C19",
+)
+
 NOT_YET = {}
 
 def main():
